@@ -48,6 +48,9 @@ fn write_tree(dir: &Path) {
         for i in 0..*n {
             s += &format!("let v{i} = {i};\n");
         }
+        // two comment lines and a blank one: they count only where a rule says so
+        let c = if p.ends_with(".py") { "#" } else { "//" };
+        s += &format!("{c} note\n{c} note\n\n");
         std::fs::write(f, s).unwrap();
     }
 }
@@ -77,8 +80,13 @@ fn gen_config(rng: &mut Rng) -> (String, String) {
     if rng.chance(2, 3) {
         let p = pick(rng, "content.rules", "src/**", "**/src/**");
         // the rule's own warn point differs from the one derived from the global threshold (0.5)
-        match rng.below(3) {
+        match rng.below(4) {
             0 => c += &format!("[[content.rules]]\npattern = \"{p}\"\nmax_lines = 4\n"),
+            3 => {
+                // the rule prescribes another way of counting than [content]
+                c += &format!("[[content.rules]]\npattern = \"{p}\"\nmax_lines = 10\nskip_comments = false\nskip_blank = false\n");
+                tag.borrow_mut().push("rule-limit-10".into());
+            }
             1 => {
                 c += &format!("[[content.rules]]\npattern = \"{p}\"\nmax_lines = 10\nwarn_threshold = 1.0\n");
                 tag.borrow_mut().push("rule-limit-10".into());
